@@ -21,9 +21,12 @@ NOTES = {
     "swallowed-error": "deliberate: the error of a per-message / per-connection / per-iteration operation is logged and the loop continues (or the scope result is mapped), as reviewed on the pinned tree",
 }
 tab = collections.OrderedDict()
-for kind, key, where, detail in hazards.sites(ctx, files):
+NOTES["static-state"] = "reviewed: not a cache of decisions - the protobuf descriptor pool / per-crate descriptor, the fake clock's epoch, the test listener-address reservation, a build-script flag"
+for kind, key, where, detail in hazards.sites(ctx, files) + hazards.static_sites(ctx, files):
     e = tab.setdefault((kind, key), {"kind": kind, "key": key, "count": 0, "reason": NOTES[kind], "at": where})
     e["count"] += 1
+    if kind == "static-state":
+        e["ty"] = detail.split(" : ", 1)[-1]
 out = sorted(tab.values(), key=lambda e: (e["kind"], e["key"]))
 json.dump({"_doc": "reviewed hazard sites (rules/hazards.py); key = function | field or callee", "sites": out}, open(os.path.join(hazards.VERIF, "tables", "hazards.json"), "w"), indent=1)
 print(len(out), "keys,", sum(e["count"] for e in out), "sites")
